@@ -25,6 +25,7 @@ pub const OTHER_TYPES: &[&str] = &[
     "generic", "deb", "rpm", "docker", "github", "oci", "t", "x-y", "a.b", "c++", "t1", "conan",
     // Valid type strings need not start with a letter.
     "7zip", "3d", ".net", "+x", "-y", "0",
+    "a-rather-long-package-type-name.with+all-the.allowed+characters-0123456789",
 ];
 
 const TYPE_TAIL: &[u8] = b"abcxyzABCXYZ019.+-";
@@ -85,7 +86,10 @@ pub fn qualifier_key(rng: &mut Rng) -> String {
         "type", "k", "a", "b", "z", "tag", "channel", "x.y", "a-b", "k_1", "check_only", "checks", "checksumz",
         "_x", "c", "d", "distro", "ext", "platform", "variant",
     ];
-    let base = if rng.chance(2, 3) {
+    let base = if rng.chance(1, 20) {
+        // A long key, or one mixing every allowed character class.
+        (*rng.pick(&["a-very-long-qualifier-key.with_every-allowed.character_class-0123456789", "k0.1-2_3", "x_y_z", "q9", "repository_url_mirror"])).to_owned()
+    } else if rng.chance(2, 3) {
         (*rng.pick(COMMON)).to_owned()
     } else {
         let mut s = String::new();
@@ -105,13 +109,21 @@ pub fn qualifier_key(rng: &mut Rng) -> String {
 /// A component value: mostly plain, often separator-rich.
 pub fn component(rng: &mut Rng, rich: bool) -> String {
     if rng.chance(1, 40) {
-        // A long value (canonical strings beyond 256 and 512 bytes): buffers, chunking, fast paths.
-        let unit = *rng.pick(&["abcdefghij", "https://example.com/path/", "0123456789abcdef", "é", "x", "a b", "%41", "Lib-"]);
-        // (Very rarely beyond 64 KiB: length fields, u16 counters.)
-        let target = if rng.chance(1, 60) { 66_000 } else { *rng.pick(&[40usize, 120, 260, 300, 520, 1100]) };
+        // A value of a boundary length (small-string inline capacity, powers of two and their
+        // neighbours, very rarely beyond 64 KiB): buffers, chunking, length fields, fast paths.
+        const LENGTHS: &[usize] = &[
+            15, 16, 17, 22, 23, 24, 25, 31, 32, 33, 63, 64, 65, 127, 128, 129, 255, 256, 257, 300, 511, 512, 513,
+            1023, 1024, 1025, 4095, 4096, 4097,
+        ];
+        let unit = *rng.pick(&["abcdefghij", "https://example.com/path/", "0123456789abcdef", "é", "x", "a b", "%41", "Lib-", "A"]);
+        let target = if rng.chance(1, 60) { *rng.pick(&[65_535usize, 65_536, 66_000]) } else { *rng.pick(LENGTHS) };
         let mut s = String::new();
-        while s.len() < target {
+        while s.len() + unit.len() <= target {
             s.push_str(unit);
+        }
+        // Fill up to the exact byte length with single-byte characters.
+        while s.len() < target {
+            s.push('z');
         }
         return s;
     }
@@ -147,7 +159,8 @@ pub fn components(rng: &mut Rng, known_bias: bool) -> Components {
     let mut c = Components { ty: type_string(rng, known_bias), ..Default::default() };
     let needs_ns = c.ty.eq_ignore_ascii_case("maven");
     if needs_ns || rng.chance(1, 2) {
-        for _ in 0..rng.range(1, 3) {
+        let n = if rng.chance(1, 30) { *rng.pick(&[8usize, 16, 33]) } else { rng.range(1, 3) };
+        for _ in 0..n {
             c.namespace.push(segment(rng, rich));
         }
     }
@@ -158,7 +171,11 @@ pub fn components(rng: &mut Rng, known_bias: bool) -> Components {
     if rng.chance(1, 2) {
         // Mostly a handful of qualifiers, now and then more than eight (search strategies that
         // switch with the size of the list).
-        let n = if rng.chance(1, 12) { rng.range(9, 14) } else { rng.range(1, 4) };
+        let n = match rng.below(24) {
+            0 => rng.range(9, 14),
+            1 => *rng.pick(&[15usize, 16, 17, 31, 32, 33]),
+            _ => rng.range(1, 4),
+        };
         for _ in 0..n {
             let k = qualifier_key(rng);
             if c.qualifiers.iter().any(|(e, _)| e.eq_ignore_ascii_case(&k))
@@ -173,7 +190,8 @@ pub fn components(rng: &mut Rng, known_bias: bool) -> Components {
         }
     }
     if rng.chance(1, 3) {
-        for _ in 0..rng.range(1, 3) {
+        let n = if rng.chance(1, 30) { *rng.pick(&[8usize, 16, 33]) } else { rng.range(1, 3) };
+        for _ in 0..n {
             let s = segment(rng, rich);
             if s != "." && s != ".." {
                 c.subpath.push(s);
